@@ -5,32 +5,44 @@ use delaunay::geometry::point::Point;
 use delaunay::geometry::traits::coordinate::Coordinate;
 use delaunay::geometry::util::measures::simplex_volume;
 
-/// `Ok(v)` ⇒ exact |det| ≠ 0 and |v·D! − |det|| ≤ 1e-9·|det|; exact det = 0 ⇒ `Err`.
-/// `scale_pow` = scale^D for lattices scaled by an exact power of two.
-fn check_volume(got: Result<f64, ()>, abs_det: i64, dfact: f64, scale_pow: f64) {
-    let exact = (abs_det as f64) * scale_pow / dfact; // exact up to one rounding of the division
+/// `Ok(v)` ⇒ exact |det| ≠ 0 and |v·D! − |det|·scale^D| ≤ 2⁻³⁰·|det|·scale^D (≈ 1e-9 relative);
+/// exact det = 0 ⇒ `Err`. The comparison avoids floating-point multiplication/division in the
+/// oracle: v·D! is formed by additions, scale^D and the tolerance by exponent arithmetic.
+/// `k_pow` = k·D for lattices scaled by 2^-k.
+fn check_volume(got: Result<f64, ()>, abs_det: i32, dfact: u8, k_pow: u64) {
     match got {
         Ok(v) => {
             assert!(abs_det != 0, "a degenerate simplex must be reported as an error, not a finite volume");
-            assert!((v - exact).abs() <= 1e-9 * exact, "volume agrees with the exact value to relative 1e-9");
+            // D! * v by repeated addition (each addition rounds by at most half an ulp)
+            let mut scaled = 0.0_f64;
+            let mut i = 0;
+            while i < dfact {
+                scaled += v;
+                i += 1;
+            }
+            // |det| * 2^-k_pow, exact: small integer with the exponent lowered
+            let exact = f64::from_bits((f64::from(abs_det).to_bits() as i64 - ((k_pow as i64) << 52)) as u64);
+            let tol = f64::from_bits((exact.to_bits() as i64 - (30_i64 << 52)) as u64);
+            assert!((scaled - exact).abs() <= tol, "volume agrees with the exact value to relative 1e-9");
         }
         Err(()) => {
-            // the library documents an absolute degeneracy threshold of 1e-12; only volumes above it are demanded
-            assert!(abs_det == 0 || exact < 1e-12, "a non-degenerate simplex has a volume");
+            // the library documents an absolute degeneracy threshold of 1e-12: 2^-39 < 1e-12/6 is
+            // below every volume demanded here (k_pow <= 24)
+            assert!(abs_det == 0, "a non-degenerate simplex has a volume");
         }
     }
 }
 
 harness! {
     // bound: simplex_volume D=1, endpoints any i16 integers
-    #[kani::unwind(4)]
+    #[kani::unwind(8)]
     fn c18_volume_1d_i16() {
         let a: i16 = kani::any();
         let b: i16 = kani::any();
         let pts = [Point::new([f64::from(a)]), Point::new([f64::from(b)])];
         let got = simplex_volume(&pts).map_err(|_| ());
-        let det = (i64::from(a) - i64::from(b)).abs();
-        check_volume(got, det, 1.0, 1.0);
+        let det = (i32::from(a) - i32::from(b)).abs();
+        check_volume(got, det, 1, 0);
         kani::cover!(det == 0, "degenerate reached");
         kani::cover!(det > 0, "non-degenerate reached");
         core::mem::forget(got);
@@ -41,21 +53,21 @@ macro_rules! volume2d {
     ($name:ident, $g:literal) => {
         harness! {
             // bound: simplex_volume D=2, 3 points with integer coordinates in [-G, G]
-            #[kani::unwind(5)]
+            #[kani::unwind(8)]
             fn $name() {
-                let mut ip = [[0_i64; 2]; 3];
+                let mut ip = [[0_i32; 2]; 3];
                 let mut pts = [Point::new([0.0, 0.0]); 3];
                 let mut i = 0;
                 while i < 3 {
                     let x = any_grid($g);
                     let y = any_grid($g);
-                    ip[i] = [i64::from(x), i64::from(y)];
+                    ip[i] = [x, y];
                     pts[i] = Point::new([f64::from(x), f64::from(y)]);
                     i += 1;
                 }
                 let det = det3([[ip[0][0], ip[0][1], 1], [ip[1][0], ip[1][1], 1], [ip[2][0], ip[2][1], 1]]).abs();
                 let got = simplex_volume(&pts).map_err(|_| ());
-                check_volume(got, det, 2.0, 1.0);
+                check_volume(got, det, 2, 0);
                 kani::cover!(det == 0, "degenerate reached");
                 kani::cover!(det == 1, "smallest non-degenerate triangle reached");
                 kani::cover!(det > 1, "larger triangle reached");
@@ -66,29 +78,29 @@ macro_rules! volume2d {
 }
 
 volume2d!(c18_volume_2d_g2, 2);
-volume2d!(c18_volume_2d_g8, 8);
-volume2d!(c18_volume_2d_g32, 32);
+volume2d!(c18_volume_2d_g3, 3);
+volume2d!(c18_volume_2d_g4, 4);
 
 harness! {
-    // bound: simplex_volume D=2 on dyadic lattices 2^-k * [-4,4]^2, k symbolic in 0..=12 (scaling law: factor 4^-k)
-    #[kani::unwind(5)]
-    fn c18_volume_2d_dyadic_g4() {
+    // bound: simplex_volume D=2 on dyadic lattices 2^-k * [-2,2]^2, k symbolic in 0..=12 (scaling law: factor 4^-k)
+    #[kani::unwind(8)]
+    fn c18_volume_2d_dyadic_g2() {
         let k: u8 = kani::any();
         kani::assume(k <= 12);
         let scale = f64::from_bits((1023_u64 - u64::from(k)) << 52);
-        let mut ip = [[0_i64; 2]; 3];
+        let mut ip = [[0_i32; 2]; 3];
         let mut pts = [Point::new([0.0, 0.0]); 3];
         let mut i = 0;
         while i < 3 {
-            let x = any_grid(4);
-            let y = any_grid(4);
-            ip[i] = [i64::from(x), i64::from(y)];
+            let x = any_grid(2);
+            let y = any_grid(2);
+            ip[i] = [x, y];
             pts[i] = Point::new([f64::from(x) * scale, f64::from(y) * scale]);
             i += 1;
         }
         let det = det3([[ip[0][0], ip[0][1], 1], [ip[1][0], ip[1][1], 1], [ip[2][0], ip[2][1], 1]]).abs();
         let got = simplex_volume(&pts).map_err(|_| ());
-        check_volume(got, det, 2.0, scale * scale);
+        check_volume(got, det, 2, 2 * u64::from(k));
         kani::cover!(det == 0, "degenerate reached");
         kani::cover!(det == 1 && k == 12, "smallest triangle at the smallest scale reached");
         core::mem::forget(got);
@@ -99,16 +111,16 @@ macro_rules! volume3d {
     ($name:ident, $g:literal) => {
         harness! {
             // bound: simplex_volume D=3, 4 points with integer coordinates in [-G, G]
-            #[kani::unwind(6)]
+            #[kani::unwind(8)]
             fn $name() {
-                let mut ip = [[0_i64; 3]; 4];
+                let mut ip = [[0_i32; 3]; 4];
                 let mut pts = [Point::new([0.0, 0.0, 0.0]); 4];
                 let mut i = 0;
                 while i < 4 {
                     let x = any_grid($g);
                     let y = any_grid($g);
                     let z = any_grid($g);
-                    ip[i] = [i64::from(x), i64::from(y), i64::from(z)];
+                    ip[i] = [x, y, z];
                     pts[i] = Point::new([f64::from(x), f64::from(y), f64::from(z)]);
                     i += 1;
                 }
@@ -119,7 +131,7 @@ macro_rules! volume3d {
                     [ip[3][0], ip[3][1], ip[3][2], 1],
                 ]).abs();
                 let got = simplex_volume(&pts).map_err(|_| ());
-                check_volume(got, det, 6.0, 1.0);
+                check_volume(got, det, 6, 0);
                 kani::cover!(det == 0, "degenerate reached");
                 kani::cover!(det == 1, "smallest non-degenerate tetrahedron reached");
                 kani::cover!(det > 1, "larger tetrahedron reached");
@@ -146,3 +158,41 @@ harness! {
         core::mem::forget(got);
     }
 }
+
+/// D=4 (Gram matrix + LDLT path): an exactly degenerate integer simplex must be an error.
+/// Only the Ok/Err verdict is asserted (Kani's sqrt model is inexact, so no value claim).
+macro_rules! volume4d_degenerate {
+    ($name:ident, $g:literal, $fixed:literal) => {
+        harness! {
+            // bound: simplex_volume D=4, first $fixed points fixed on the unit frame, the rest symbolic integers in [-G, G]^4, restricted to EXACTLY degenerate simplices: must be Err
+            #[kani::unwind(7)]
+            fn $name() {
+                let frame: [[i32; 4]; 5] = [[0, 0, 0, 0], [1, 0, 0, 0], [0, 1, 0, 0], [0, 0, 1, 0], [0, 0, 0, 1]];
+                let mut ip = [[0_i32; 4]; 5];
+                let mut pts = [Point::new([0.0, 0.0, 0.0, 0.0]); 5];
+                let mut i = 0;
+                while i < 5 {
+                    let c: [i32; 4] = if i < $fixed { frame[i] } else { [any_grid($g), any_grid($g), any_grid($g), any_grid($g)] };
+                    ip[i] = [c[0], c[1], c[2], c[3]];
+                    pts[i] = Point::new([f64::from(c[0]), f64::from(c[1]), f64::from(c[2]), f64::from(c[3])]);
+                    i += 1;
+                }
+                let det = det5([
+                    [ip[0][0], ip[0][1], ip[0][2], ip[0][3], 1],
+                    [ip[1][0], ip[1][1], ip[1][2], ip[1][3], 1],
+                    [ip[2][0], ip[2][1], ip[2][2], ip[2][3], 1],
+                    [ip[3][0], ip[3][1], ip[3][2], ip[3][3], 1],
+                    [ip[4][0], ip[4][1], ip[4][2], ip[4][3], 1],
+                ]);
+                kani::assume(det == 0);
+                let got = simplex_volume(&pts);
+                assert!(got.is_err(), "a degenerate simplex must be reported as an error, not a finite volume");
+                kani::cover!((ip[4][0] != ip[3][0] || ip[4][1] != ip[3][1] || ip[4][2] != ip[3][2] || ip[4][3] != ip[3][3]) && det == 0, "degenerate with distinct free points reached");
+                core::mem::forget(got);
+            }
+        }
+    };
+}
+
+volume4d_degenerate!(c18_volume_4d_degenerate_g2_fixed3, 2, 3);
+volume4d_degenerate!(c18_volume_4d_degenerate_g1_fixed1, 1, 1);
